@@ -118,6 +118,9 @@ func c02Run(c c02Case) error {
 	if err != nil {
 		return err
 	}
+	if err := callerSliceIntact(&r, sp.RequireSets); err != nil {
+		return err
+	}
 	dup := hasDupInput(sp)
 	if dup {
 		ev.Class("duplicate_input_character")
